@@ -474,7 +474,7 @@ static void s_run_query(const uint8_t *p, size_t n, const char *variant) {
     printf(" params=%zu chan=%s views=%s canary=-\n", params, mon ? mon : s_chan(rc != 0), s_vres(&v));
 }
 
-static void s_run_uridec(const uint8_t *p, size_t n, const char *variant, size_t pre, size_t cap) {
+static void s_run_uridec(const uint8_t *p, size_t n, const char *variant, size_t pre, size_t cap, bool show) {
     struct aws_byte_cursor cur = {.ptr = (uint8_t *)p, .len = n};
     struct aws_byte_buf out;
     if (cap < pre) {
@@ -502,7 +502,12 @@ static void s_run_uridec(const uint8_t *p, size_t n, const char *variant, size_t
     }
     printf("P uridec %s decode ", variant);
     s_class(rc);
-    printf(" outlen=%zu chan=%s views=- canary=%s\n", out.len - (out.len >= pre ? pre : 0), s_chan(rc != 0), can);
+    printf(" outlen=%zu", out.len - (out.len >= pre ? pre : 0));
+    if (show && can[0] == 'o') {
+        printf(" out=");
+        hc_put_hex(out.buffer + pre, out.len - pre);
+    }
+    printf(" chan=%s views=- canary=%s\n", s_chan(rc != 0), can);
     aws_byte_buf_clean_up(&out);
 }
 
@@ -701,6 +706,52 @@ static void s_run_uuid(const uint8_t *p, size_t n, const char *variant) {
     s_obuf_free(&o);
 }
 
+/* aws_uuid_to_str: the input bytes are the uuid data (zero-padded / cut to 16); the output buffer is an exact-size
+ * block of pre + slack bytes with len = pre.  On success the text is parsed back (round trip). */
+static void s_run_uuidstr(const uint8_t *p, size_t n, const char *variant, size_t pre, size_t slack) {
+    struct aws_uuid u;
+    AWS_ZERO_STRUCT(u);
+    if (n) {
+        memcpy(u.uuid_data, p, n < 16 ? n : 16);
+    }
+    struct obuf o;
+    struct aws_byte_buf out = s_obuf_make(&o, pre + slack, false);
+    for (size_t i = 0; i < pre; ++i) {
+        out.buffer[i] = (uint8_t)(0xA0 + (i & 15));
+    }
+    out.len = pre;
+    aws_reset_error();
+    int rc = aws_uuid_to_str(&u, &out);
+    const char *can = s_obuf_check(&o, &out, false);
+    for (size_t i = 0; i < pre && can[0] == 'o'; ++i) {
+        if (out.buffer[i] != (uint8_t)(0xA0 + (i & 15))) {
+            can = "BAD:prefix-overwritten";
+        }
+    }
+    if (rc && can[0] == 'o') {
+        for (size_t i = pre; i < o.cap; ++i) {
+            if (o.out[i] != CANARY) {
+                can = "BAD:written-although-refused";
+            }
+        }
+        if (out.len != pre) {
+            can = "BAD:len-changed-although-refused";
+        }
+    }
+    printf("P uuidstr %s to_str ", variant);
+    s_class(rc);
+    if (!rc && can[0] == 'o' && out.len >= pre) {
+        printf(" text=");
+        hc_put_hex(out.buffer + pre, out.len - pre);
+        struct aws_byte_cursor txt = aws_byte_cursor_from_array(out.buffer + pre, out.len - pre);
+        struct aws_uuid back;
+        int rc2 = aws_uuid_init_from_str(&back, &txt);
+        printf(" roundtrip=%s", (!rc2 && aws_uuid_equals(&back, &u)) ? "same" : "DIFF");
+    }
+    printf(" chan=%s views=- canary=%s\n", s_chan(rc != 0), can);
+    s_obuf_free(&o);
+}
+
 static void s_run_ipv4(const uint8_t *p, size_t n, const char *variant) {
     struct aws_byte_cursor cur = {.ptr = (uint8_t *)p, .len = n};
     bool r = aws_host_utils_is_ipv4(cur);
@@ -760,7 +811,13 @@ static bool s_dispatch(const char *parser, const uint8_t *p, size_t n, const cha
     } else if (!strcmp(parser, "query")) {
         s_run_query(p, n, variant);
     } else if (!strcmp(parser, "uridec")) {
-        s_run_uridec(p, n, variant, hc_parse_size(s_opt(t, nt, "pre", "0")), hc_parse_size(s_opt(t, nt, "cap", "0")));
+        s_run_uridec(
+            p,
+            n,
+            variant,
+            hc_parse_size(s_opt(t, nt, "pre", "0")),
+            hc_parse_size(s_opt(t, nt, "cap", "0")),
+            s_opt(t, nt, "show", "0")[0] == '1');
     } else if (!strcmp(parser, "date")) {
         s_run_date(p, n, variant);
     } else if (!strcmp(parser, "b64")) {
@@ -773,6 +830,8 @@ static bool s_dispatch(const char *parser, const uint8_t *p, size_t n, const cha
         s_run_utf8(p, n, variant, hc_parse_u64(s_opt(t, nt, "chunk", "1")), hc_parse_size(s_opt(t, nt, "failat", "0")));
     } else if (!strcmp(parser, "uuid")) {
         s_run_uuid(p, n, variant);
+    } else if (!strcmp(parser, "uuidstr")) {
+        s_run_uuidstr(p, n, variant, hc_parse_size(s_opt(t, nt, "pre", "0")), hc_parse_size(s_opt(t, nt, "slack", "37")));
     } else if (!strcmp(parser, "ipv4")) {
         s_run_ipv4(p, n, variant);
     } else if (!strcmp(parser, "ipv6")) {
@@ -826,6 +885,13 @@ int main(void) {
         s_alarm_secs = (unsigned)atoi(getenv("C04_ALARM"));
     }
     aws_common_library_init(hc_allocator());
+    if (getenv("C04_PREWARM")) {
+        /* model stage: UBSan reports each source location once per process; trigger the known, harmless
+         * memcpy(copy, NULL, 0) report of aws_host_utils_is_ipv4 before the first case so that it cannot land inside a
+         * compared stream (everything printed before the first "case" line is ignored by lib/core.py) */
+        struct aws_byte_cursor nul = {.ptr = NULL, .len = 0};
+        (void)aws_host_utils_is_ipv4(nul);
+    }
     while ((n = hc_next_line(t)) >= 0) {
         if (!strcmp(t[0], "case") && n >= 2) {
             hc_case_begin(t[1]);
